@@ -88,7 +88,7 @@ func (wtr *XMLWtr) container(lvl int) node.Node {
 			// the document starts with the element of the selection it is written from: a container,
 			// a list item, or for a whole list one element that holds the items
 			ns := wtr.getXmlns(r.Selection.Path)
-			ident := wtr.ident(r.Selection.Path) + " xmlns=" + "\"" + ns + "\""
+			ident := wtr.ident(r.Selection.Path) + xmlnsAttrOf(ns)
 			if err := wtr.beginContainer(ident); err != nil {
 				return err
 			}
@@ -96,7 +96,7 @@ func (wtr *XMLWtr) container(lvl int) node.Node {
 		} else if !meta.IsLeaf(r.Selection.Meta()) && !r.Selection.InsideList && !meta.IsList(r.Selection.Meta()) {
 			if lvl == 0 && first {
 				ns := wtr.getXmlns(r.Selection.Path)
-				ident := wtr.ident(r.Selection.Path) + " xmlns=" + "\"" + ns + "\""
+				ident := wtr.ident(r.Selection.Path) + xmlnsAttrOf(ns)
 				if err := wtr.beginContainer(ident); err != nil {
 					return err
 				}
@@ -185,9 +185,17 @@ func (wtr *XMLWtr) changedXmlns(p *node.Path) string {
 
 func (wtr *XMLWtr) xmlnsAttr(p *node.Path) string {
 	if ns := wtr.changedXmlns(p); ns != "" {
-		return " xmlns=" + "\"" + ns + "\""
+		return xmlnsAttrOf(ns)
 	}
 	return ""
+}
+
+// xmlnsAttrOf is the xmlns attribute for a namespace, a namespace is free to hold
+// characters an attribute value has to escape ("urn:x?a=1&b=2")
+func xmlnsAttrOf(ns string) string {
+	var escaped bytes.Buffer
+	xml.EscapeText(&escaped, []byte(ns))
+	return " xmlns=\"" + escaped.String() + "\""
 }
 
 func (wtr *XMLWtr) beginContainer(ident string) (err error) {
